@@ -59,6 +59,20 @@ DIAG_MARKS = (b'content file', b'Error decoding', b'CRC', b'decoding', b'Invalid
               b'Unexpected', b'not supported', b'newer version', b'Low memory', b'not specified', b'Conflicting')
 
 
+DIAG_CLASSES = [(b'Unexpected end of content', 'eof-in-record'), (b'without finding the expected CRC', 'no-crc-record'),
+                (b'Unexpected data after the CRC', 'data-after-crc'), (b'Error reading the CRC', 'eof-in-crc'),
+                (b'Internal inconsistency', 'internal-inconsistency(abort)'), (b'Invalid header', 'invalid-header(abort)'),
+                (b'Invalid command', 'invalid-command(abort)'), (b'newer version', 'newer-version'), (b'text content file is not supported', 'not-binary'),
+                (b'The CRC of the file is correct', 'decode-error(crc-correct)'), (b'CRC mismatch', 'crc-mismatch'), (b'Error decoding', 'decode-error')]
+
+
+def diag_class(out):
+    for m, name in DIAG_CLASSES:
+        if m in out:
+            return name
+    return 'other'
+
+
 def judge(rc, out):
     """None when the run is a clean refusal (non-zero exit, a snapraid diagnostic, no sanitizer/libc report, no fatal signal other
     than the tool's own abort()); otherwise the reason it is not."""
@@ -352,7 +366,7 @@ def _sweep_worker(job):
                 why = 'the damaged content file itself was rewritten by the refused command'
             elif left:
                 why = 'files left behind by the refused command: %r' % left
-        key = 'rc=%s' % rc
+        key = 'rc=%s %s' % (rc, diag_class(out) if rc != 0 else 'ACCEPTED')
         classes[key] = classes.get(key, 0) + 1
         if why is not None:
             bad.append((m, why, rc, out[-1500:].decode(errors='replace')))
